@@ -95,7 +95,7 @@ func runC15(rc *RC) {
 		// steps these pile up unscheduled and each step has to look at all of them
 		rc.S.Strat, strat = simrt.StratUniform, "uniform(wrap)"
 	}
-	acceptMode := ch.Int("workload", 8) // 0-2 Accept, 3-4 Expect, 5 no listener, 6 an Expect that is given up, then Accept, 7 a second Expect takes the first one over
+	acceptMode := ch.Int("workload", 9) // 8: the application closes the listener while an open request waits to be accepted; 0-2 Accept, 3-4 Expect, 5 no listener, 6 an Expect that is given up, then Accept, 7 a second Expect takes the first one over
 	reverse := ch.Chance("workload", 1, 3) && !wrap
 	payload := genPayload(rc, block)
 	if wrap {
@@ -214,6 +214,14 @@ func runC15(rc *RC) {
 				}
 				expectGivenUp = true
 				connB, acceptErr = l.Accept()
+			case acceptMode == 8:
+				simrt.WaitUntil("listener-close", func() bool {
+					return openDone || (p.ServeB != nil && strings.HasPrefix(p.ServeB.Site, "blocked:ibb/ibb.go"))
+				})
+				l.Close()
+				rc.Fire("listener-closed-under-open")
+				acceptDone, acceptErr = true, errListenerClosed
+				return
 			case acceptMode == 7:
 				// a second Expect for the same stream replaces the first (which returns its context's error); the stream
 				// goes to the second
@@ -266,7 +274,7 @@ func runC15(rc *RC) {
 		if accT != nil {
 			// the application is inside Accept / Expect before the peer opens the stream
 			simrt.WaitUntil("opener:acceptor-ready", func() bool {
-				return (strings.HasPrefix(accT.Site, "blocked:ibb/listen.go") && ((acceptMode != 6 && acceptMode != 7) || expectGivenUp)) || accT.Done()
+				return acceptMode == 8 || (strings.HasPrefix(accT.Site, "blocked:ibb/listen.go") && ((acceptMode != 6 && acceptMode != 7) || expectGivenUp)) || accT.Done()
 			})
 		}
 		octx, ocancel := context.WithTimeout(ctx, 30*time.Second)
@@ -339,6 +347,12 @@ func runC15(rc *RC) {
 				rc.Failf("C15.c4", "bad-packet-not-refused:refused-sid", "packet for a session whose open request was refused: want stanza error item-not-found, got %q (err %v, returned %v)", cond, ierr, it.Done())
 			}
 		}
+		finishC15(rc, p, &phase)
+		return
+	}
+	if acceptMode == 8 {
+		// nothing to transfer: the point is that neither serve loop panics or stays blocked (c6) and Open returns
+		rc.Check("C15.c1", "open-stuck:listener-closed", openDone, "the accepting side closed its listener while the open request waited; Open has not returned: stuck %v", rc.S.Stuck())
 		finishC15(rc, p, &phase)
 		return
 	}
@@ -692,3 +706,5 @@ func checkIBBWire(rc *RC, tap []byte, sid string, atLeast, written []byte, label
 		rc.Failf("C15.c3", "wire-payload-differs:"+label, "%s: the packets on the wire decode to %d bytes %q, %d were written and flushed", label, len(all), clip(string(all), 40), len(written))
 	}
 }
+
+var errListenerClosed = errors.New("harness: listener closed by the application")
